@@ -188,14 +188,11 @@ example :
 
 /-! ## the conversions in the arithmetic of the dtype -/
 
-/-- every stored value is a value of the dtype -/
-def memD (dt : DType) (c : Container) : Prop := ∀ i j, ∀ v ∈ cell c i j, dt.mem v
-
 /-- **denoteD_checkFormatD**. For a container of dtype `dt` (bool: `+` is or; intN / uintN: `+` wraps around; float:
-exact, see `Model/Container.lean`) whose stored values are values of the dtype, the CSR matrix `check_format` builds
+exact, see `Model/Container.lean`), the CSR matrix `check_format` builds
 denotes — duplicates added up *in the dtype* — the same matrix as the input. The only arithmetic a conversion performs
 is the summing of COO duplicates; no overflow hypothesis is needed because the model wraps like numpy does. -/
-theorem denoteD_checkFormatD (dt : DType) (hv : dt.valid) (c : Container) (_hm : memD dt c) (i j : Nat)
+theorem denoteD_checkFormatD (dt : DType) (hv : dt.valid) (c : Container) (i j : Nat)
     (hi : i < c.nRow) (hj : j < c.nCol) :
     denoteD dt (checkFormatD dt c) i j = denoteD dt c i j := by
   cases c with
@@ -257,14 +254,17 @@ theorem denoteD_float (c : Container) (i j : Nat) : denoteD .float c i j = denot
       rw [this]; rfl
 
 /-- **the overflow hypothesis, explicit**: in an integer dtype the matrix a container denotes is the exact one as
-long as, at every position, the exact sums of the stored duplicates (added one after the other, as scipy does) stay
-inside the range of the dtype. Without the hypothesis the statement is false: see the `int8` example below. -/
-theorem denoteD_int_exact (lo hi : Int) (c : Container) (i j : Nat) (hint : ∀ x ∈ cell c i j, x.den = 1)
-    (hfit : ∀ k, k ≤ (cell c i j).length →
-      (sumR ((cell c i j).drop k)).den = 1 ∧ lo ≤ (sumR ((cell c i j).drop k)).num ∧ (sumR ((cell c i j).drop k)).num ≤ hi) :
+soon as, at every position, the exact *total* of the stored duplicates lies in the range of the dtype (wrap-around is a
+ring morphism: intermediate overflows cancel, in whatever order scipy adds). Without the hypothesis the statement is
+false: see the `int8` example below. -/
+theorem denoteD_int_exact (lo hi : Int) (h0 : lo ≤ 0 ∧ 0 ≤ hi) (c : Container) (i j : Nat) (hint : ∀ x ∈ cell c i j, x.den = 1)
+    (hfit : lo ≤ sumZ (cell c i j) ∧ sumZ (cell c i j) ≤ hi) :
     denoteD (.int lo hi) c i j = denoteD .float c i j := by
   unfold denoteD
-  rw [sumD_int_exact lo hi _ hint hfit]; rfl
+  rw [sumD_int_exact_total lo hi h0 _ hint hfit]; rfl
+
+/-- the hypothesis is about the total only: int8 entries 100, 100, -100 overflow on the way and still denote 100 -/
+example : denoteD int8 (.coo 1 1 [(0, 0, 100), (0, 0, 100), (0, 0, -100)]) 0 0 = 100 := by decide +kernel
 
 /-- **unsorted indices, any dtype**: permuting the stored entries of a row does not change the matrix (the order in
 which wrapped or boolean duplicates are added is immaterial). -/
